@@ -161,46 +161,100 @@ Theorem C09_sni_boundary_nonvacuous :
 Proof. exact sni_boundary_nonvacuous. Qed.
 Print Assumptions C09_sni_boundary_nonvacuous.
 
-(* The first finished direction ends the tunnel.  For every schedule of the two copiers:
-   each side has received a prefix of what the other sent (once, in order, unmodified) ... *)
-Theorem C09_tunnel_delivers_prefixes : forall sched c ceof u ueof,
-  let s := trun sched (tinit c ceof u ueof) in
-  (exists rest, concat c = t_c_done s ++ rest) /\ (exists rest, concat u = t_u_done s ++ rest).
+(* The tunnel (proxy/tcp/tunnel.go, fix commit e0f2d05; inline in ws_handler.go): two copiers, a
+   clean EOF closes the write side of the other connection, the tunnel ends when a direction
+   reports non-nil or both are done.  For every schedule of the two copiers, every pair of
+   streams, every segmentation, every order of closing and both kinds of connection (with /
+   without CloseWrite): each side has received a prefix of what the other sent - every byte at
+   most once, in order, unmodified ... *)
+Theorem C09_tunnel_delivers_prefixes : forall sched c ceof u ueof co ci,
+  let s := hrun sched (hinit c ceof u ueof co ci) in
+  (exists rest, concat c = h_c_done s ++ rest) /\ (exists rest, concat u = h_u_done s ++ rest).
 Proof. exact tunnel_delivers_prefixes. Qed.
 Print Assumptions C09_tunnel_delivers_prefixes.
 
-(* ... and whichever side finishes first has had all of its data delivered. *)
-Theorem C09_finisher_fully_delivered : forall sched c ceof u ueof,
-  let s := trun sched (tinit c ceof u ueof) in
-  (t_ended s = Some C2U -> t_c_done s = concat c /\ ceof = true) /\
-  (t_ended s = Some U2C -> t_u_done s = concat u /\ ueof = true).
+(* ... whichever side finishes - first or second - has had all of its data delivered ... *)
+Theorem C09_finisher_fully_delivered : forall sched c ceof u ueof co ci,
+  let s := hrun sched (hinit c ceof u ueof co ci) in
+  (h_c_fin s <> None -> h_c_done s = concat c) /\ (h_u_fin s <> None -> h_u_done s = concat u).
 Proof. exact finisher_fully_delivered. Qed.
 Print Assumptions C09_finisher_fully_delivered.
 
-(* A half-closing client does not get the reply (finding F-C09-2): a schedule exists in
-   which the client direction sees EOF first; the scripted scenario of the harness forces it. *)
+(* ... a client that half-closes (or closes) after sending still receives the reply: with an
+   upstream connection that can be closed for writing (the dialled TCP connection), whenever
+   the tunnel has ended the upstream's whole output has been delivered ... *)
+Theorem C09_half_close_reply_delivered : forall sched c ceof u ueof ci,
+  let s := hrun sched (hinit c ceof u ueof true ci) in
+  h_ended s = true -> h_u_done s = concat u.
+Proof. exact half_close_reply_delivered. Qed.
+Print Assumptions C09_half_close_reply_delivered.
+
+(* ... and when both connections can be closed for writing the tunnel ends only when both
+   directions are done: every byte delivered exactly once, in order, both ways. *)
+Theorem C09_tunnel_end_all_delivered : forall sched c ceof u ueof,
+  let s := hrun sched (hinit c ceof u ueof true true) in
+  h_ended s = true -> h_c_done s = concat c /\ h_u_done s = concat u.
+Proof. exact tunnel_end_all_delivered. Qed.
+Print Assumptions C09_tunnel_end_all_delivered.
+
+Theorem C09_tunnel_half_close_nonvacuous :
+  let s := hrun [C2U; C2U; U2C; U2C] (hinit [[1; 2; 3]%N] true [[7; 8]%N] true true true) in
+  h_ended s = true /\ h_c_done s = [1; 2; 3]%N /\ h_u_done s = [7; 8]%N.
+Proof. exact tunnel_half_close_nonvacuous. Qed.
+Print Assumptions C09_tunnel_half_close_nonvacuous.
+
+(* F-C09-2, repaired by e0f2d05.  The unrepaired tunnel ("the first finished direction ends the
+   tunnel"): a schedule exists in which the client direction sees EOF first and the reply never
+   arrives ... *)
 Theorem C09_half_close_reply_refuted :
   exists sched req reply,
-    let s := trun sched (tinit [req] true [reply] true) in
+    let s := trun_unrepaired sched (tinit_unrepaired [req] true [reply] true) in
     reply <> [] /\ t_ended s = Some C2U /\ t_c_done s = req /\ t_u_done s = [] /\ t_u_done s <> reply.
 Proof. exact half_close_reply_refuted. Qed.
 Print Assumptions C09_half_close_reply_refuted.
 
-Theorem C09_half_close_scenario_refuted :
-  exists e, region_half_close false CHalf = true /\
-    scenario_expect KTcp false [] [[1; 2; 3]%N] 0 false CHalf UOnEOF [7; 8]%N 0 0 UClose = Ok e /\
-    e_up e = [1; 2; 3]%N /\ e_up_lo e = 3%N /\ e_cl_hi e = 0%N /\
-    spec_b KTcp false [] [1; 2; 3]%N false CHalf UOnEOF [7; 8]%N UClose [1; 2; 3]%N [] = false.
-Proof. exact half_close_scenario_refuted. Qed.
-Print Assumptions C09_half_close_scenario_refuted.
+(* ... the same witness on the current tunnel: it does not end at the client's EOF, and ends with
+   request and reply delivered once the upstream direction is done too; on the scripted
+   scenario: everything delivered, the tunnel ends, and an observation without the reply would
+   fail the specification. *)
+Theorem C09_half_close_reply_refuted_now_delivered :
+  (let s := trun_unrepaired [C2U; C2U; U2C] (tinit_unrepaired [[1; 2; 3]%N] true [[7; 8]%N] true) in
+   t_ended s = Some C2U /\ t_u_done s = [] /\ t_u_done s <> [7; 8]%N) /\
+  (let s := hrun [C2U; C2U] (hinit [[1; 2; 3]%N] true [[7; 8]%N] true true true) in
+   h_ended s = false /\ h_c_fin s = Some true) /\
+  (let s := hrun [C2U; C2U; U2C; U2C] (hinit [[1; 2; 3]%N] true [[7; 8]%N] true true true) in
+   h_ended s = true /\ h_c_done s = [1; 2; 3]%N /\ h_u_done s = [7; 8]%N).
+Proof. exact half_close_reply_refuted_now_delivered. Qed.
+Print Assumptions C09_half_close_reply_refuted_now_delivered.
 
-(* While the client has not ended its side the reply is delivered in full under every schedule
-   in which the upstream finishes. *)
-Theorem C09_half_close_reply_on_domain : forall sched c u ueof,
-  let s := trun sched (tinit c false u ueof) in
-  t_ended s = Some U2C -> t_u_done s = concat u.
-Proof. exact half_close_reply_on_domain. Qed.
-Print Assumptions C09_half_close_reply_on_domain.
+Theorem C09_half_close_scenario_delivered :
+  exists e, scenario_expect KTcp false [] [[1; 2; 3]%N] 0 false false CHalf UOnEOF [7; 8]%N 0 0 UClose = Ok e /\
+    e_up e = [1; 2; 3]%N /\ e_up_lo e = 3%N /\ e_cl e = [7; 8]%N /\ e_cl_lo e = 2%N /\ e_ends e = Some true /\
+    spec_b KTcp false [] [1; 2; 3]%N 0 false false CHalf UOnEOF [7; 8]%N UClose [1; 2; 3]%N [7; 8]%N true false = true /\
+    spec_b KTcp false [] [1; 2; 3]%N 0 false false CHalf UOnEOF [7; 8]%N UClose [1; 2; 3]%N [] true false = false.
+Proof. exact half_close_scenario_delivered. Qed.
+Print Assumptions C09_half_close_scenario_delivered.
+
+(* F-C09-5, repaired by ad209fd (proxy/tcp/server.go: the tcp server's connection wrapper got a
+   delegating CloseWrite).  Before, behind that wrapper an upstream half-close ended the tunnel at
+   once (closeWrite -> io.EOF) and cut what the client was still sending; the same schedule now
+   goes on, the client sees EOF after the upstream's data and everything it sends is delivered.
+   Still without CloseWrite, and therefore still in [region_upstream_half_close]: connections of
+   listeners with pxyproto=true (github.com/armon/go-proxyproto Conn). *)
+Theorem C09_upstream_half_close_refuted :
+  (let s := hrun [U2C; U2C; C2U] (hinit [[1; 2]%N; [3]%N] true [[7; 8]%N] true true (wrapper_cw_unrepaired true)) in
+   h_ended s = true /\ h_u_done s = [7; 8]%N /\ h_c_done s = [] /\ h_c_done s <> [1; 2; 3]%N) /\
+  (let s := hrun [U2C; U2C; C2U] (hinit [[1; 2]%N; [3]%N] true [[7; 8]%N] true true (wrapper_cw true)) in
+   h_ended s = false /\ h_u_fin s = Some true /\ h_c_done s = [1; 2]%N) /\
+  (let s := hrun [U2C; U2C; C2U; C2U; C2U] (hinit [[1; 2]%N; [3]%N] true [[7; 8]%N] true true (wrapper_cw true)) in
+   h_ended s = true /\ h_u_done s = [7; 8]%N /\ h_c_done s = [1; 2; 3]%N) /\
+  (let e := tunnel_expect [1; 2; 3]%N [7; 8]%N (wrapper_cw_unrepaired true) false false CHalf UAtConnect UHalf in
+   region_upstream_half_close [1; 2; 3]%N (wrapper_cw_unrepaired true) UAtConnect UHalf = true /\ e_up_lo e = 0%N /\ e_cl_eof e = Some false) /\
+  (let e := tunnel_expect [1; 2; 3]%N [7; 8]%N (wrapper_cw true) false false CHalf UAtConnect UHalf in
+   region_upstream_half_close [1; 2; 3]%N (wrapper_cw true) UAtConnect UHalf = false /\ e_up_lo e = 3%N /\ e_cl_lo e = 2%N /\
+   e_cl_eof e = Some true /\ e_ends e = Some true).
+Proof. exact upstream_half_close_refuted. Qed.
+Print Assumptions C09_upstream_half_close_refuted.
 
 (* websocket (fix commit 9c9f13b: io.ReadAtLeast(out, b, 12)): however an upstream reply that
    starts with "HTTP/1.1 101" is cut into segments, the handshake read succeeds (never out of
@@ -239,50 +293,55 @@ Theorem C09_ws_split_101_refuted :
   has_prefix wit_reply ws_101 = true /\
   ws_first_chunk_unrepaired (firstn 10 wit_reply) = firstn 10 wit_reply /\
   ws_upgraded_unrepaired (firstn 10 wit_reply) = false /\
-  exists e, scenario_expect KWs false [] [[1; 2]%N] 0 false CStay UAtConnect wit_reply 10 (nlen' wit_reply) UStay = Ok e /\
+  exists e, scenario_expect KWs false [] [[1; 2]%N] 0 true false CStay UAtConnect wit_reply 10 (nlen' wit_reply) UStay = Ok e /\
     e_cl e = wit_reply /\ e_cl_lo e = nlen' wit_reply /\ e_up e = [1; 2]%N /\ e_up_lo e = 2%N /\
-    spec_b KWs false [] [1; 2]%N false CStay UAtConnect wit_reply UStay (e_up e) (e_cl e) = true.
+    spec_b KWs false [] [1; 2]%N 0 true false CStay UAtConnect wit_reply UStay (e_up e) (e_cl e) false false = true.
 Proof. exact ws_split_101_refuted. Qed.
 Print Assumptions C09_ws_split_101_refuted.
 
 (* An upstream that ends before 12 bytes have arrived: nothing is forwarded to the client. *)
 Theorem C09_ws_short_reply_nothing_forwarded :
-  exists e, scenario_expect KWs false [] [[1; 2]%N] 0 false CStay UAtConnect (firstn 10 wit_reply) 4 10 UClose = Ok e /\
+  exists e, scenario_expect KWs false [] [[1; 2]%N] 0 true false CStay UAtConnect (firstn 10 wit_reply) 4 10 UClose = Ok e /\
     e_cl e = [] /\ e_cl_hi e = 0%N /\ e_up e = [].
 Proof. exact ws_short_reply_nothing_forwarded. Qed.
 Print Assumptions C09_ws_short_reply_nothing_forwarded.
 
 (* The link between the scenario analysis and the specification, with the interval semantics of
-   the correspondence check: for all scenarios, outside the open finding region (F-C09-2) and
-   the close-with-unread-reply race (kernel-decided, not generated), every observation within
-   the model's forced outcome satisfies spec_b.  Verdict 4 cannot arise from the model side.
-   [ws_head_first]: on the websocket path the harness's upstream may send only the first
-   [whead] bytes before it waits for its trigger; they must contain the status line. *)
-Theorem C09_tunnel_expect_meets_spec : forall up reply cwait ce ut ue o_up o_cl,
-  let e := tunnel_expect up reply cwait ce ut ue in
-  region_half_close cwait ce = false -> race_close_unread_reply up cwait ce ut = false ->
+   the correspondence check: for all scenarios (proxy kind, PROXY option, segmentation,
+   final-read status, close order incl. half-closes of either side, trigger, client connection
+   with or without CloseWrite), every observation within the model's forced outcome - streams
+   within their intervals, the tunnel ending or not as predicted - satisfies spec_b.  Verdict 4
+   cannot arise from the model side.  No open finding region is left.  Excluded by name:
+   [region_upstream_half_close] (the upstream half-closes while client bytes are still on
+   their way behind a client connection without CloseWrite: tunnel.go ends the tunnel there and
+   timing decides how much of the client's stream is cut; kept out of the generated domain) and
+   [ws_head_first] (on the websocket path the harness's upstream may send only the first [whead]
+   bytes before it waits for its trigger; they must contain the status line). *)
+Theorem C09_tunnel_expect_meets_spec : forall up reply cw_in cerr cwait ce ut ue o_up o_cl o_ended o_eof,
+  let e := tunnel_expect up reply cw_in cerr cwait ce ut ue in
+  region_upstream_half_close up cw_in ut ue = false ->
   within o_up (e_up e) (e_up_lo e) (nlen' (e_up e)) = true ->
   is_prefix o_cl (e_cl e) = true -> (e_cl_lo e <= nlen' o_cl)%N ->
-  spec_core up reply cwait ce ut ue o_up o_cl = true.
+  ends_agree e o_ended = true -> eof_agree e o_eof = true ->
+  spec_core up reply cw_in cerr cwait ce ut ue o_up o_cl o_ended o_eof = true.
 Proof. exact tunnel_expect_meets_spec. Qed.
 Print Assumptions C09_tunnel_expect_meets_spec.
 
-Theorem C09_scenario_meets_spec : forall k pp line segs fin cwait ce ut reply rseg1 whead ue e o_up o_cl,
-  scenario_expect k pp line segs fin cwait ce ut reply rseg1 whead ue = Ok e ->
-  region_half_close cwait ce = false ->
-  race_close_unread_reply (spec_upstream k pp line (concat segs)) cwait ce ut = false ->
+Theorem C09_scenario_meets_spec : forall k pp line segs fin cw_in cwait ce ut reply rseg1 whead ue e o_up o_cl o_ended o_eof,
+  scenario_expect k pp line segs fin cw_in cwait ce ut reply rseg1 whead ue = Ok e ->
+  region_upstream_half_close (spec_upstream k pp line (concat segs)) cw_in ut ue = false ->
   ws_head_first k ut whead = true ->
   within o_up (e_up e) (e_up_lo e) (nlen' (e_up e)) = true ->
   within o_cl (e_cl e) (e_cl_lo e) (e_cl_hi e) = true ->
-  spec_b k pp line (concat segs) cwait ce ut reply ue o_up o_cl = true.
+  ends_agree e o_ended = true -> eof_agree e o_eof = true ->
+  spec_b k pp line (concat segs) fin cw_in cwait ce ut reply ue o_up o_cl o_ended o_eof = true.
 Proof. exact scenario_meets_spec. Qed.
 Print Assumptions C09_scenario_meets_spec.
 
 Theorem C09_scenario_meets_spec_nonvacuous :
-  exists e, scenario_expect KSni true [80; 32]%N [wit_hello ++ [1; 2]%N; [3]%N] 1 true CHalf (UAfterBytes 4) [7; 8]%N 0 0 UStay = Ok e /\
+  exists e, scenario_expect KSni true [80; 32]%N [wit_hello ++ [1; 2]%N; [3]%N] 1 false false CHalf UOnEOF [7; 8]%N 0 0 UHalf = Ok e /\
     within ([80; 32]%N ++ wit_hello ++ [1; 2; 3]%N) (e_up e) (e_up_lo e) (nlen' (e_up e)) = true /\
-    within [7; 8]%N (e_cl e) (e_cl_lo e) (e_cl_hi e) = true /\
-    region_half_close true CHalf = false /\
-    race_close_unread_reply (spec_upstream KSni true [80; 32]%N (wit_hello ++ [1; 2; 3]%N)) true CHalf (UAfterBytes 4) = false.
+    within [7; 8]%N (e_cl e) (e_cl_lo e) (e_cl_hi e) = true /\ ends_agree e true = true /\ eof_agree e false = true /\
+    region_upstream_half_close (spec_upstream KSni true [80; 32]%N (wit_hello ++ [1; 2; 3]%N)) false UOnEOF UHalf = false.
 Proof. exact scenario_meets_spec_nonvacuous. Qed.
 Print Assumptions C09_scenario_meets_spec_nonvacuous.
